@@ -2,6 +2,7 @@ import SqlObjVerif.Lemmas.Events
 import SqlObjVerif.Lemmas.EventsX
 import SqlObjVerif.Lemmas.EvMainXInit
 import SqlObjVerif.Lemmas.EvChainXModel
+import SqlObjVerif.Lemmas.EvSubXConns
 /-!
 # C19 — row events fire exactly once, in order around the database write; listener edits of the
 create / update kwargs are what gets stored; appended post-callbacks run after the operation;
@@ -468,6 +469,47 @@ example :
      | _ => none) = some (Chain.createObj ccfg 1 2)
     ∧ Chain.createObj ccfg 1 2 = [.ev .create 0 1 none, .ins 0 1, .post 7 0 1, .ins 1 1, .ins 2 1, .ev .created 0 0 (some 1), .ev .created 1 0 (some 1),
          .ev .created 2 0 (some 1), .ev .created 2 1 (some 1), .post 1 2 1] := by
+  decide +kernel
+
+
+/-! ## the subclass-time copy of listeners on the TRANSLATED source
+
+`subPostX` (Model/EvSubX.lean) runs the PyVersion translation (`vlib/extractors/pyevsub.py`, on this run) of
+`events._makeSubclassConnectionsPost`, which the class machinery calls once for every class that is declared (checked as data
+by the extractor: `_makeSubclassConnections` registers it as an early func and is connected to `ClassCreateSignal`).  The
+interface (`__bases__`, `subclassClones.get`, weak references) is stated in the header of Model/EvSubX.lean. -/
+
+/-- **a listener registered on a class before a subclass is declared reaches the subclass exactly once — as translated.**
+    For every connection table, every base list and every liveness of the receivers: the translated
+    `_makeSubclassConnectionsPost(new)` returns, and what it did is `subclassed`: base by base, entry by entry in
+    registration order, every live `(receiver, signal)` of the base's clone list goes through the TRANSLATED
+    `events.listen(receiver, new, signal)` (dead receivers are skipped) — which connects it for the new class and, by
+    `C19_translated_listen_eq_model`, records it in the new class's own clone list, so that the same copy happens again for
+    grandchildren (`Chain.effective`: the early listeners of all ancestors, root first, then the class's own).  For a single
+    base the new class's connections grow by exactly one per live clone entry of the base, in order, nothing else changes in
+    the table.  (Seeded change C19-e1 — `dispatcher.connect` instead of `listen` in the copy — changes the translated program
+    and breaks this proof.) -/
+theorem C19_translated_subclass_listeners_eq_model (bases : List PVal) (alive : PVal → Bool) (new : PVal)
+    (htr : ∀ r, alive r = true → PyVer.pyBool r = true) (w : LW) (hwf : ClonesWF w) :
+    subPostX bases alive w new = .ret (subclassed bases alive w new) .none [new]
+    ∧ (∀ base, (subclassed [base] alive w new).conns
+          = w.conns ++ (clonesOf w.clones base).filterMap (cloneConn alive new))
+    ∧ ClonesWF (subclassed bases alive w new) := by
+  refine ⟨subPostX_eq bases alive new htr w hwf, fun base => subclassed_conns_single alive w base new, ?_⟩
+  unfold subclassed
+  generalize bases = bs
+  induction bs generalizing w with
+  | nil => exact hwf
+  | cons b bs ih => exact ih _ (foldl_copy_wf alive new _ w hwf)
+
+/-- non-vacuity: two listeners registered on class 0 (one of them dead by now), class 1 declared with base 0 -/
+example :
+    let r1 : PVal := .ref 9 1
+    let r2 : PVal := .ref 9 2
+    let w0 : LW := listened (listened ⟨[], []⟩ r1 (.cls 0) (sigVal .created) (.bool true)) r2 (.cls 0) (sigVal .update) (.bool true)
+    (match subPostX [.cls 0] (fun r => decide (r = r1)) w0 (.cls 1) with
+     | .ret w' _ _ => some (w'.conns.drop 2, w'.clones.map (·.1))
+     | _ => none) = some ([(r1, sigVal .created, .cls 1, .bool true)], [.cls 0, .cls 1]) := by
   decide +kernel
 
 /-! ### concrete runs of the translated `__init__` → `_create` → `set` → `_SO_finishCreate` → `_init` → postponed thunk, and of
